@@ -4,6 +4,7 @@ package index
 // drive a Corpus from harnesses living in other packages.
 
 import (
+	"context"
 	"net/url"
 	"sort"
 	"time"
@@ -63,4 +64,10 @@ func VerifIndexWithDeletes(targets, deleters []blob.Ref, whens []time.Time) *Ind
 		x.deletes.m[targets[i]] = l
 	}
 	return x
+}
+
+// VerifAddBlobRows delivers a received blob's index rows through the real Corpus.addBlob
+// (the path Index.ReceiveBlob -> commit takes), including its cache-generation bookkeeping.
+func (c *Corpus) VerifAddBlobRows(br blob.Ref, rows map[string]string) error {
+	return c.addBlob(context.Background(), br, &mutationMap{kv: rows})
 }
